@@ -107,11 +107,18 @@ impl AccessStructure {
         encryption_hint: EncryptionHint,
         after: Option<&str>,
     ) -> Result<(), Error> {
+        // IDs must be unique: the number of attributes cannot be used since it
+        // collides with the ID of an existing attribute after a deletion.
         let cnt = self
             .dimensions
             .values()
-            .map(Dimension::nb_attributes)
-            .sum::<usize>();
+            .flat_map(Dimension::attributes)
+            .map(Attribute::get_id)
+            .max()
+            .map_or(Some(0), |id| id.checked_add(1))
+            .ok_or_else(|| {
+                Error::OperationNotPermitted("no attribute ID left in this structure".to_string())
+            })?;
 
         self.dimensions
             .get_mut(&attribute.dimension)
